@@ -1,6 +1,6 @@
 (* C01 — explicit tree-automata inclusion is exact under every algorithm selection. Statements only. *)
 From Coq Require Import List NArith Bool.
-From V Require Import Sem Prod Incl TrimDefs TrimProofs Lang InclDefs InclProofs AntichainUp.
+From V Require Import Sem Prod Incl TrimDefs TrimProofs Lang InclDefs InclProofs AntichainUp DownIncl.
 
 (* the verdict function every selection must compute (prepare by trimming, then decide) is exact *)
 Theorem C01_exact : forall v A B, incl_model v A B = true <-> (forall t, accepts A t -> accepts B t).
@@ -33,7 +33,20 @@ Proof. exact up_antichain_refines. Qed.
 Theorem C01_up_antichain_exact : forall A B, up_ac A B = true <-> forall t, accepts A t -> accepts B t.
 Proof. exact up_antichain_exact. Qed.
 
+(* (A) recursive downward algorithm (identity preorder, no caches): choice functions over the tuples of the bigger automaton,
+   open goals on the call stack assumed (coinduction). Whatever the fuel, an answer is the truth; None = out of fuel. *)
+Theorem C01_down_partial_correct : forall A B fuel b, down_incl A B fuel = Some b -> (b = true <-> forall t, accepts A t -> accepts B t).
+Proof. exact down_incl_partial_correct. Qed.
+Theorem C01_down_state_correct : forall A B fuel q S b, down A B fuel q S nil = Some b ->
+  (b = true <-> forall t, reach A t q -> exists s, In s S /\ reach B t s).
+Proof. exact down_partial_correct. Qed.
+Theorem C01_down_refines : forall A B fuel b, down_incl A B fuel = Some b -> b = incl_dec A B.
+Proof. exact down_incl_refines. Qed.
+
 Print Assumptions C01_exact.
+Print Assumptions C01_down_partial_correct.
+Print Assumptions C01_down_state_correct.
+Print Assumptions C01_down_refines.
 Print Assumptions C01_up_antichain_refines.
 Print Assumptions C01_up_antichain_exact.
 Print Assumptions C01_agree.
